@@ -7,14 +7,55 @@ package ndjson
 // are pairwise disjoint, because the reader then picks the case by the JSON type of the value. The decision loop
 // collects the kinds of the cases it has seen; each case adds its kinds to the collection, and a case whose kinds
 // overlap the collection switches to the tagged form, which is never switched back.
+//@ spec func scalarConv(t *dsl.GeneralizedType, ns string, named *dsl.NamedType) string
 //@ func typeConverter@getScalarConverter
-//@   property C02,C03
+//@   property C02,C03,C14
 //@   requires t != nil
+//@   names result == scalarConv(t, contextNamespace, namedType)
+//@   ensures single_case_is_transparent: t.Cases.IsSingle() ==> result == typeConverter(t.Cases[0].Type, contextNamespace, namedType)
+//@   ensures optional_wraps_second_case: !t.Cases.IsSingle() && t.Cases.IsOptional() ==> result == "_ndjson.OptionalConverter(" + typeConverter(t.Cases[1].Type, contextNamespace, namedType) + ")"
+//@   ensures a_union_is_one_union_converter: !t.Cases.IsSingle() && !t.Cases.IsOptional() ==> hasPrefix(result, "_ndjson.UnionConverter(")
 //@   iteration 0: kinds_of_a_case_are_added_to_the_collection: c.Type != nil ==> next(possibleTypes) == (possibleTypes | lastResult(ndjsoncommon.GetJsonDataType))
 //@   iteration 0: a_null_case_adds_nothing: c.Type == nil ==> next(possibleTypes) == possibleTypes
 //@   iteration 0: overlap_forces_the_tagged_form: c.Type != nil && (lastResult(ndjsoncommon.GetJsonDataType) & possibleTypes) != 0 ==> next(simplfied) == "False"
 //@   iteration 0: tagged_form_is_final: simplfied == "False" ==> next(simplfied) == "False"
 //@   invariant 0: simplfied == "True" || simplfied == "False"
+
+// The converter expression of every type follows the same plan as the binary serializers (docs/reference/ndjson.md):
+//   nil -> none; primitive p -> <p>_converter; enum / flags -> Enum/FlagsConverter with the declared base type (int32
+//   when omitted); alias -> converter of its target; a stream is written item by item, so its converter is the one of
+//   the item; vector / fixed vector(length) / NDArray(rank) / dynamic NDArray / map(key, value) wrap the element's.
+//@ spec func gen(t dsl.Type) *dsl.GeneralizedType = t.(*dsl.GeneralizedType)
+//@ spec func dim(t dsl.Type) dsl.Dimensionality = t.(*dsl.GeneralizedType).Dimensionality
+//@ spec func isGenT(t dsl.Type) bool = typeof(t) == *dsl.GeneralizedType && t.(*dsl.GeneralizedType) != nil
+// (the names of the two lookup tables of an enum are functions of the enum and the namespace they are used from)
+//@ func enumNameToValueMapName
+//@   pure
+//@ func enumValueToNameMapName
+//@   pure
+//@ func typeDefinitionConverter
+//@   property C14,C03
+//@   pure
+//@   ensures primitive_by_name: typeof(t) == dsl.PrimitiveDefinition ==> result == "_ndjson." + toLower(t.(dsl.PrimitiveDefinition)) + "_converter"
+//@   ensures enum_uses_declared_base: typeof(t) == *dsl.EnumDefinition && t.(*dsl.EnumDefinition) != nil && t.(*dsl.EnumDefinition).BaseType != nil && !t.(*dsl.EnumDefinition).IsFlags ==> result == "_ndjson.EnumConverter(" + common.TypeSyntax(t, contextNamespace) + ", " + common.TypeDTypeSyntax(t.(*dsl.EnumDefinition).BaseType) + ", " + enumNameToValueMapName(t.(*dsl.EnumDefinition), contextNamespace) + ", " + enumValueToNameMapName(t.(*dsl.EnumDefinition), contextNamespace) + ")"
+//@   ensures enum_defaults_to_int32: typeof(t) == *dsl.EnumDefinition && t.(*dsl.EnumDefinition) != nil && t.(*dsl.EnumDefinition).BaseType == nil && !t.(*dsl.EnumDefinition).IsFlags ==> result == "_ndjson.EnumConverter(" + common.TypeSyntax(t, contextNamespace) + ", " + common.TypeDTypeSyntax(dsl.Int32Type) + ", " + enumNameToValueMapName(t.(*dsl.EnumDefinition), contextNamespace) + ", " + enumValueToNameMapName(t.(*dsl.EnumDefinition), contextNamespace) + ")"
+//@   ensures flags_have_their_own_converter: typeof(t) == *dsl.EnumDefinition && t.(*dsl.EnumDefinition) != nil && t.(*dsl.EnumDefinition).IsFlags ==> hasPrefix(result, "_ndjson.FlagsConverter(")
+//@   ensures alias_is_transparent: typeof(t) == *dsl.NamedType && t.(*dsl.NamedType) != nil ==> result == typeConverter(t.(*dsl.NamedType).Type, contextNamespace, t.(*dsl.NamedType))
+//@   ensures type_parameter_by_name: typeof(t) == *dsl.GenericTypeParameter && t.(*dsl.GenericTypeParameter) != nil ==> result == formatting.ToSnakeCase(t.(*dsl.GenericTypeParameter).Name) + "_converter"
+//@ func typeConverter
+//@   property C14,C03
+//@   pure
+//@   invariant 0: td.Dimensions != nil && (forall k in 0..len(*td.Dimensions) :: (*td.Dimensions)[k].Length != nil)
+//@   ensures none: t == nil ==> result == "_ndjson.none_converter"
+//@   ensures simple_by_definition: typeof(t) == *dsl.SimpleType && t.(*dsl.SimpleType) != nil ==> result == typeDefinitionConverter(t.(*dsl.SimpleType).ResolvedDefinition, contextNamespace)
+//@   ensures scalar: isGenT(t) && dim(t) == nil ==> result == scalarConv(gen(t), contextNamespace, namedType)
+//@   ensures stream_items_use_the_item_converter: isGenT(t) && typeof(dim(t)) == *dsl.Stream ==> result == scalarConv(gen(t), contextNamespace, namedType)
+//@   ensures vector: isGenT(t) && typeof(dim(t)) == *dsl.Vector && dim(t).(*dsl.Vector) != nil && dim(t).(*dsl.Vector).Length == nil ==> result == "_ndjson.VectorConverter(" + scalarConv(gen(t), contextNamespace, namedType) + ")"
+//@   ensures fixed_vector_carries_length: isGenT(t) && typeof(dim(t)) == *dsl.Vector && dim(t).(*dsl.Vector) != nil && dim(t).(*dsl.Vector).Length != nil ==> result == "_ndjson.FixedVectorConverter(" + scalarConv(gen(t), contextNamespace, namedType) + ", " + itoa(*dim(t).(*dsl.Vector).Length) + ")"
+//@   ensures ndarray_carries_rank: isGenT(t) && typeof(dim(t)) == *dsl.Array && dim(t).(*dsl.Array) != nil && !dim(t).(*dsl.Array).IsFixed() && dim(t).(*dsl.Array).HasKnownNumberOfDimensions() ==> result == "_ndjson.NDArrayConverter(" + scalarConv(gen(t), contextNamespace, namedType) + ", " + itoa(len(*dim(t).(*dsl.Array).Dimensions)) + ")"
+//@   ensures dynamic_ndarray: isGenT(t) && typeof(dim(t)) == *dsl.Array && dim(t).(*dsl.Array) != nil && !dim(t).(*dsl.Array).IsFixed() && !dim(t).(*dsl.Array).HasKnownNumberOfDimensions() ==> result == "_ndjson.DynamicNDArrayConverter(" + scalarConv(gen(t), contextNamespace, namedType) + ")"
+//@   ensures fixed_ndarray_has_its_own_converter: isGenT(t) && typeof(dim(t)) == *dsl.Array && dim(t).(*dsl.Array) != nil && dim(t).(*dsl.Array).IsFixed() ==> hasPrefix(result, "_ndjson.FixedNDArrayConverter(" + scalarConv(gen(t), contextNamespace, namedType) + ", (")
+//@   ensures map_key_then_value: isGenT(t) && typeof(dim(t)) == *dsl.Map && dim(t).(*dsl.Map) != nil ==> result == "_ndjson.MapConverter(" + typeConverter(dim(t).(*dsl.Map).KeyType, contextNamespace, namedType) + ", " + typeConverter(gen(t).ToScalar(), contextNamespace, namedType) + ")"
 
 // docs/reference/ndjson.md, records: "Fields are skipped if they are options or unions with `null` as an option and the
 // value is null". The rule looks through aliases and covers every scalar union that has the null case first, not
